@@ -203,6 +203,7 @@ class Engine:
         self.solver = z3.Solver()
         self.scope_marks = []       # (number of facts at push time, scoped constraints) per open solver scope
         self._solver_broken = False
+        self._saw_unknown = False
         self.solver.set("timeout", FEAS_TIMEOUT_MS)
         self.facts = []
         self.fact_small = []
@@ -279,7 +280,19 @@ class Engine:
             return {"sat": z3.sat, "unsat": z3.unsat}.get(r, z3.unknown)
         t0 = time.time()
         try:
-            r = self.solver.check(*extra)
+            # NOT solver.check(*extra): with z3 5.1 a check under assumptions that is cancelled by the timeout leaves
+            # the assumption behind in the incremental solver, and every later check on this path answers `unsat`
+            # (reproduced in isolation; see DESIGN section 0, "solver soundness").  The extra constraints go into
+            # their own scope instead, and after any `unknown` the incremental solver is rebuilt from the facts.
+            self.solver.push()
+            try:
+                for x in extra:
+                    self.solver.add(x)
+                r = self.solver.check()
+            finally:
+                self.solver.pop()
+            if r != z3.sat and r != z3.unsat:
+                self.rebuild_solver()
         except z3.Z3Exception as e:
             # an internal solver failure (seen: "Overflow encountered when expanding vector" in the sequence solver)
             # decides nothing: the incremental solver is rebuilt from the facts and the query counts as unknown
@@ -406,7 +419,10 @@ class Engine:
     def _safe_check(self, s):
         """s.check(), with an internal solver failure (not a timeout) counted as `unknown`"""
         try:
-            return s.check()
+            r = s.check()
+            if r != z3.sat and r != z3.unsat and s is self.solver:
+                self._saw_unknown = True
+            return r
         except z3.Z3Exception as e:
             if "canceled" in str(e) or "interrupt" in str(e).lower():
                 raise
@@ -522,8 +538,10 @@ class Engine:
                         candidate = cm
                 except z3.Z3Exception:
                     candidate = None
-        if self._solver_broken:
+        if self._solver_broken or self._saw_unknown:
+            # an internal failure or a cancelled check: do not trust the incremental state any further
             self._solver_broken = False
+            self._saw_unknown = False
             self.rebuild_solver()
         else:
             s.pop()
